@@ -330,3 +330,99 @@ func collect(root **node) []ref {
 	walk(*root, func(y *node) { *root = y }, "", 'r')
 	return out
 }
+
+// gparse reads the text form produced by gshow (used to replay a stored generic case).
+func gparse(s string) (*node, error) {
+	pos := 0
+	var item func() (*node, error)
+	num := func() (uint64, error) {
+		st := pos
+		for pos < len(s) && s[pos] >= '0' && s[pos] <= '9' {
+			pos++
+		}
+		return strconv.ParseUint(s[st:pos], 10, 64)
+	}
+	expect := func(c byte) error {
+		if pos >= len(s) || s[pos] != c {
+			return errG
+		}
+		pos++
+		return nil
+	}
+	item = func() (*node, error) {
+		if pos >= len(s) {
+			return nil, errG
+		}
+		k := s[pos]
+		pos++
+		switch k {
+		case 'u', 'n', 's':
+			n, err := num()
+			return &node{kind: k, n: n}, err
+		case 'b', 't':
+			if err := expect('('); err != nil {
+				return nil, err
+			}
+			st := pos
+			for pos < len(s) && s[pos] != ')' {
+				pos++
+			}
+			bs, err := hex.DecodeString(s[st:pos])
+			if err != nil {
+				return nil, err
+			}
+			return &node{kind: k, bs: bs}, expect(')')
+		case 'g':
+			n, err := num()
+			if err != nil {
+				return nil, err
+			}
+			if err := expect('('); err != nil {
+				return nil, err
+			}
+			y, err := item()
+			if err != nil {
+				return nil, err
+			}
+			return &node{kind: 'g', n: n, kids: []*node{y}}, expect(')')
+		case 'a', 'm':
+			if err := expect('('); err != nil {
+				return nil, err
+			}
+			x := &node{kind: k}
+			if pos < len(s) && s[pos] == ')' {
+				pos++
+				return x, nil
+			}
+			for {
+				y, err := item()
+				if err != nil {
+					return nil, err
+				}
+				if k == 'm' {
+					if err := expect(':'); err != nil {
+						return nil, err
+					}
+					v, err := item()
+					if err != nil {
+						return nil, err
+					}
+					x.pairs = append(x.pairs, [2]*node{y, v})
+				} else {
+					x.kids = append(x.kids, y)
+				}
+				if pos < len(s) && s[pos] == ',' {
+					pos++
+					continue
+				}
+				return x, expect(')')
+			}
+		}
+		return nil, errG
+	}
+	x, err := item()
+	if err != nil || pos != len(s) {
+		return nil, errG
+	}
+	return x, nil
+}
